@@ -673,6 +673,16 @@ KNOWN_CASES = {
         "main.go": 'package main\n\nfunc main() { println(InitApp() != nil) }\n',
         "wire.go": '//go:build wireinject\n\npackage main\n\nimport "github.com/google/wire"\n\nfunc InitApp() *Hub {\n\twire.Build(NewOut, wire.Struct(new(Hub), "*"))\n\treturn nil\n}\n'},
         what="vet"),
+    "KF-C13-30": dict(files={
+        "t.go": 'package main\n\ntype Limit int\ntype App struct{ L Limit }\n\nvar DefaultLimit = Limit(5)\n\nfunc NewApp(l Limit) *App { return &App{L: l} }\n',
+        "main.go": 'package main\n\nfunc main() {\n\tDefaultLimit = 9\n\tprintln(int(InitApp().L))\n}\n',
+        "wire.go": '//go:build wireinject\n\npackage main\n\nimport "github.com/google/wire"\n\nfunc InitApp() *App {\n\twire.Build(wire.Value(DefaultLimit), NewApp)\n\treturn nil\n}\n'},
+        what="run"),
+    "KF-C13-31": dict(files={
+        "t.go": 'package main\n\ntype Host string\ntype Config struct{ Host Host }\ntype App struct{ H *Host }\n\nfunc NewConfig() *Config { return &Config{Host: "h"} }\nfunc NewApp(h *Host) *App { return &App{H: h} }\n',
+        "main.go": 'package main\n\nfunc main() { println(string(*InitApp().H)) }\n',
+        "wire.go": '//go:build wireinject\n\npackage main\n\nimport "github.com/google/wire"\n\nfunc InitApp() *App {\n\twire.Build(NewConfig, wire.FieldsOf(new(*Config), "Host"), NewApp)\n\treturn nil\n}\n'},
+        what="sig"),
     "KF-C14-15": dict(files={
         "go-conf/conf.go": 'package conf\n\ntype Conf struct{ S string }\n\nfunc NewConf() *Conf { return &Conf{S: "c"} }\n',
         "t.go": 'package main\n\nimport "vscratch/NAME/go-conf"\n\ntype App struct{ C *conf.Conf }\n\nfunc NewApp(c *conf.Conf) *App { return &App{C: c} }\n',
